@@ -37,7 +37,15 @@ type State struct {
 	// Gen > 0: everything was havocked ("modifies *") at some point before; a heap that is absent from Heaps then
 	// stands for the unconstrained constant of that generation, not for the function-entry heap. (A heap can be
 	// absent because no instruction had touched it when the havoc happened.)
-	Gen int
+	Gen *genNode
+}
+
+// genNode: which unconstrained "default heap" generation a state is in. nil = function entry (generation 0); a leaf
+// is the generation created by one modifies-* havoc; an inner node is the merge of two paths under condition g.
+type genNode struct {
+	id   int
+	g    *smt.Term
+	a, b *genNode
 }
 
 func (s *State) clone() *State {
@@ -158,6 +166,76 @@ type Frame struct {
 	spec     *FuncSpec
 	ghostL   map[string]*smt.Term // per-activation ghost variables (current values live in State.Heaps under "lghost:<frameid>:<name>")
 	id       int
+	// objects of local variables (ssa.Alloc) whose address does not escape this activation
+	localCells []localCell
+}
+
+type localCell struct {
+	obj *smt.Term
+	typ types.Type
+}
+
+// addrStaysLocal: the address value v (an Alloc, a FieldAddr / IndexAddr derived from one, or a closure's free
+// variable bound to one) is only loaded from, stored to, or captured by closures that this function calls or defers
+// itself and that use it in the same way - so no callee reached through a contract can read or write the cell.
+func addrStaysLocal(v ssa.Value, seen map[ssa.Value]bool) bool {
+	if seen[v] {
+		return true
+	}
+	seen[v] = true
+	refs := v.Referrers()
+	if refs == nil {
+		return false
+	}
+	for _, r := range *refs {
+		switch r := r.(type) {
+		case *ssa.Store:
+			if r.Val == v {
+				return false
+			}
+		case *ssa.UnOp, *ssa.DebugRef:
+		case *ssa.FieldAddr:
+			if !addrStaysLocal(r, seen) {
+				return false
+			}
+		case *ssa.IndexAddr:
+			if r.X != v || !addrStaysLocal(r, seen) {
+				return false
+			}
+		case *ssa.MakeClosure:
+			fn, ok := r.Fn.(*ssa.Function)
+			if !ok {
+				return false
+			}
+			for i, b := range r.Bindings {
+				if b == v && !addrStaysLocal(fn.FreeVars[i], seen) {
+					return false
+				}
+			}
+			crefs := r.Referrers()
+			if crefs == nil {
+				return false
+			}
+			for _, cr := range *crefs {
+				switch cr := cr.(type) {
+				case *ssa.Defer:
+					if cr.Call.Value != ssa.Value(r) {
+						return false
+					}
+				case *ssa.Call:
+					if cr.Call.Value != ssa.Value(r) {
+						return false
+					}
+				case *ssa.DebugRef:
+				default:
+					return false
+				}
+			}
+		default:
+			return false
+		}
+	}
+	return true
 }
 
 type retRec struct {
@@ -208,8 +286,15 @@ func (e *Enc) heap(st *State, name string, s *smt.Sort) *smt.Term {
 // defaultHeap: the value of a heap that no instruction on this path has touched: the function-entry heap, or - after a
 // "modifies *" havoc - the unconstrained heap constant of that havoc generation.
 func (e *Enc) defaultHeap(st *State, name string) *smt.Term {
-	if st.Gen == 0 {
+	return e.genHeap(st.Gen, name)
+}
+
+func (e *Enc) genHeap(g *genNode, name string) *smt.Term {
+	if g == nil {
 		return e.initHeap(name)
+	}
+	if g.g != nil {
+		return e.C.Ite(g.g, e.genHeap(g.a, name), e.genHeap(g.b, name))
 	}
 	s, ok := e.hsorts[name]
 	if !ok {
@@ -218,17 +303,49 @@ func (e *Enc) defaultHeap(st *State, name string) *smt.Term {
 		}
 		e.hsorts[name] = s
 	}
-	return e.C.Const(fmt.Sprintf("H@%d:%s", st.Gen, name), s)
+	return e.C.Const(fmt.Sprintf("H@%d:%s", g.id, name), s)
 }
 
 // havocAll models "modifies *": every heap, touched so far or not, becomes unconstrained. The object type tags,
 // the local ghosts of the function under verification and the iteration ghosts are kept (a callee can neither retype
 // an object nor see those).
-func (e *Enc) havocAll(st *State) {
+func (e *Enc) havocAll(st *State, fr *Frame) {
+	// local variable cells whose address never leaves the activations on the inline stack keep their content: no
+	// callee can name them
+	type saved struct {
+		hn  string
+		hs  *smt.Sort
+		obj *smt.Term
+		old *smt.Term
+	}
+	var sv []saved
+	for f := fr; f != nil; f = f.Parent {
+		for _, lc := range f.localCells {
+			for hn, hs := range e.heapsOfType(lc.typ) {
+				sv = append(sv, saved{hn, hs, lc.obj, e.C.Select(e.heap(st, hn, hs), lc.obj)})
+			}
+		}
+	}
+	sort.Slice(sv, func(i, j int) bool {
+		if sv[i].hn != sv[j].hn {
+			return sv[i].hn < sv[j].hn
+		}
+		return sv[i].obj.ID < sv[j].obj.ID
+	})
+	defer func() {
+		for _, x := range sv {
+			e.setHeap(st, x.hn, e.C.Store(e.heap(st, x.hn, x.hs), x.obj, x.old))
+		}
+	}()
 	keep := map[string]*smt.Term{}
 	for h, t := range st.Heaps {
 		if h == "ghost:objtype" || strings.HasPrefix(h, "lghost:") || strings.HasPrefix(h, "iter:") {
 			keep[h] = t
+		}
+	}
+	for _, hn := range e.P.immutableHeaps() {
+		if s := e.P.heapSortByName(hn); s != nil {
+			keep[hn] = e.heap(st, hn, s)
 		}
 	}
 	if _, ok := keep["ghost:objtype"]; !ok {
@@ -237,7 +354,7 @@ func (e *Enc) havocAll(st *State) {
 		}
 	}
 	e.genSeq++
-	st.Gen = e.genSeq
+	st.Gen = &genNode{id: e.genSeq}
 	st.Heaps = keep
 }
 
@@ -872,9 +989,8 @@ func (e *Enc) mergeStates(g *smt.Term, a, b *State) *State {
 	if a.Gen == b.Gen {
 		out.Gen = a.Gen
 	} else {
-		// untouched heaps differ between the two sides: a new, unconstrained generation over-approximates both
-		e.genSeq++
-		out.Gen = e.genSeq
+		// heaps untouched on both sides differ by generation: resolved lazily, per heap name, as ite(g, ., .)
+		out.Gen = &genNode{g: g, a: a.Gen, b: b.Gen}
 	}
 	out.Alloc = c.Ite(g, a.Alloc, b.Alloc)
 	out.Reach = c.Or(a.Reach, b.Reach)
